@@ -27,7 +27,7 @@ ENTRIES = ['lookup', 'lookup1', 'adapter_hook', 'queryAdapter', 'queryMultiAdapt
            'subscriptions', 'subscribers', 'call']
 POINTS = ['lazy_required', 'provided_hash', 'provided_eq', 'name_hash', 'name_bool', 'required_hash', 'required_eq',
           'uncached_entry', 'uncached_exit', 'spec_weakref', 'spec_subscribe', 'providedBy_descr', 'provides_descr',
-          'conform', 'factory', 'value_del', 'generation_attr', 'sro_attr']
+          'conform', 'factory', 'value_del', 'generation_attr', 'generation_attr_2nd', 'sro_attr']
 ACTIONS = ['register', 'unregister', 'subscribe', 'unsubscribe', 'changed', 'rebase', 'reenter_same',
            'reenter_other', 'raise', 'gc', 'register_flood', 'changed_flood']
 
@@ -234,6 +234,12 @@ class Case:
             @property
             def _generation(self):
                 fire('generation_attr')
+                if case.armed and case.point == 'generation_attr_2nd':
+                    # the second read after arming: the first one found the generation changed, this one
+                    # is made by changed() while it records the generations anew
+                    case.gen_reads += 1
+                    if case.gen_reads == 2:
+                        fire('generation_attr_2nd')
                 return self.__dict__.get('_g', 0)
 
             @_generation.setter
@@ -241,7 +247,8 @@ class Case:
                 self.__dict__['_g'] = v
 
         self.Registry = Registry
-        self.top = (GenRegistry if point == 'generation_attr' else Registry)()
+        self.gen_reads = 0
+        self.top = (GenRegistry if point in ('generation_attr', 'generation_attr_2nd') else Registry)()
         self.other = Registry()
         self.reg = Registry((self.top,))
         self.regs = {'top': self.top, 'other': self.other, 'reg': self.reg}
@@ -432,6 +439,10 @@ class Case:
         if self.warm == 'hit':
             # the key under attack is already cached: the callback now fires on the cache-hit path
             self.observe(lambda: self.call_entry(self.reg, self.entry))
+        if self.point == 'generation_attr_2nd':
+            # something changes above: the armed call finds a new generation and invalidates itself
+            self.mutate('top', 'register', [self.IR0], self.IP, 'm2', self.newval())
+            before = self.observe(lambda: self.call_entry(self.cold(), self.entry, hostile=False))
         self.armed = True
         if self.point == 'value_del':
             self.armed_del = True
